@@ -220,11 +220,15 @@ func graphOf(ctx context.Context, ts []*triple.Triple) storage.Graph {
 	return g
 }
 
+// allTriples lists a graph whatever its size (the listing is drained while it is produced).
+func allTriples(ctx context.Context, g storage.Graph) ([]*triple.Triple, error) {
+	return collect(func(c chan<- *triple.Triple) error { return g.Triples(ctx, storage.DefaultLookup, c) })
+}
+
 func listing(ctx context.Context, g storage.Graph) []string {
-	ch := make(chan *triple.Triple, 1<<14)
-	g.Triples(ctx, storage.DefaultLookup, ch)
+	ts, _ := allTriples(ctx, g)
 	var ks []string
-	for t := range ch {
+	for _, t := range ts {
 		ks = append(ks, tripleKey(t))
 	}
 	sort.Strings(ks)
